@@ -8,6 +8,11 @@ CLAIMS = {
    note="Assumed: sync.Pool contract (Get returns nil or an item previously Put into that pool and removes it), bytes.Buffer.Cap/NewBuffer contracts, global invariant of DefaultPool at entry of the package-level wrappers, capacity of a pooled buffer does not change while the pool owns it; go/ssa + engine semantics + solvers trusted (evidence: trusted_base).",
    technique="contract-based deductive verification: VC generation over go/ssa, SMT (z3/cvc5) discharge, counterexample replay via go test -overlay",
    ref="DESIGN.md section C19"),
+ "C17": dict(
+   text="Sink-consistency contracts on every method of the four transport wrapper variants and on NewTransport: for each variant one fixed sink/source object (the bufio writer/reader created over the connection, or the connection itself), and every Write/Writev/Flush/Read/Close proved, on the real SSA including the compiler-generated promoted-method wrappers, to emit exactly one call on that object with exactly the caller's arguments and to return its results. Holds for all buffer sizes and arguments; a method that bypasses pending buffered bytes, a deleted method silently replaced by the promoted one, a Close that does not flush or a mis-wired constructor each fail a named obligation.",
+   note="Assumed (not proved): the bufio.Writer/bufio.Reader/net.Buffers.WriteTo contracts (Write appends to the writer's logical stream, Flush pushes it to the underlying sink in order, WriteTo appends the buffers in order) and net.Conn; from them and the proved sink consistency the byte-stream statement follows by a paper argument (DESIGN.md C17). No bound on sizes or call sequences.",
+   technique="contract-based deductive verification: VC generation over go/ssa (ghost call trace), SMT discharge",
+   ref="DESIGN.md section C17"),
 }
 
 NA = {
